@@ -22,12 +22,13 @@ import (
 
 type vCluster struct {
 	cluster.Cluster
-	nodes   []string
-	alive   map[string]bool // a heartbeat status exists for the node
-	stream  chan *types.NodeStatus
-	downed  map[string]int // SetNode(WorkloadsDown) calls per node
-	slow    bool           // SetNode calls outlast the global timeout
-	failSet map[string]bool
+	nodes     []string
+	alive     map[string]bool // a heartbeat status exists for the node
+	stream    chan *types.NodeStatus
+	downed    map[string]int // SetNode(WorkloadsDown) calls per node
+	slow      bool           // SetNode calls outlast the global timeout
+	streamCap int
+	failSet   map[string]bool
 }
 
 func (c *vCluster) ListPodNodes(context.Context, *types.ListNodesOptions) (<-chan *types.Node, error) {
@@ -46,7 +47,11 @@ func (c *vCluster) GetNodeStatus(_ context.Context, name string) (*types.NodeSta
 	return &types.NodeStatus{Nodename: name, Podname: "p1", Alive: true}, nil
 }
 
-func (c *vCluster) NodeStatusStream(context.Context) chan *types.NodeStatus { return c.stream }
+// NodeStatusStream: every activation term gets its own stream.
+func (c *vCluster) NodeStatusStream(context.Context) chan *types.NodeStatus {
+	c.stream = make(chan *types.NodeStatus, c.streamCap)
+	return c.stream
+}
 
 func (c *vCluster) SetNode(_ context.Context, opts *types.SetNodeOptions) (*types.Node, error) {
 	if opts.WorkloadsDown {
@@ -78,7 +83,7 @@ func VerifSelfmon(arg string) {
 	steps := vParam(arg, "steps", 3)
 	vNoSample() // natively goroutine timing decides when the calls are observed
 	names := []string{"a", "b", "c"}[:nNodes]
-	cl := &vCluster{nodes: names, alive: map[string]bool{}, stream: make(chan *types.NodeStatus, steps+1), downed: map[string]int{}}
+	cl := &vCluster{nodes: names, alive: map[string]bool{}, streamCap: steps + 1, downed: map[string]int{}}
 	for _, n := range names {
 		cl.alive[n] = true
 	}
@@ -95,15 +100,26 @@ func VerifSelfmon(arg string) {
 	lapsedAfterStart := map[string]bool{}
 	lapsedBeforeStart := map[string]bool{}
 	everLapsed := map[string]bool{}
+	// the watcher process: one activation term after the other, like run() (without its sleeps);
+	// a term starts when the harness says so and ends when its status stream closes
+	goTerm := make(chan struct{}, steps+1)
+	go func() {
+		for range goTerm {
+			w.withActiveLock(ctx, func(ctx context.Context) { _ = w.monitor(ctx) })
+		}
+	}()
+	terms := 0
 	start := func() {
 		started = true
-		go w.withActiveLock(ctx, func(ctx context.Context) { _ = w.monitor(ctx) })
+		terms++
+		goTerm <- struct{}{}
+		vDrain() // the term is running (its stream exists) before the next event
 	}
 	if vBool("watcher_active_from_the_beginning") {
 		start()
 	}
 	for step := 0; step < steps; step++ {
-		ev := vChoose("event_"+string(rune('1'+step)), 3)
+		ev := vChoose("event_"+string(rune('1'+step)), 4)
 		node := names[0]
 		if nNodes > 1 {
 			node = names[vChoose("node_of_event_"+string(rune('1'+step)), nNodes)]
@@ -135,6 +151,26 @@ func VerifSelfmon(arg string) {
 				continue
 			}
 			start()
+		case 3: // the active term ends (the status stream closes, e.g. the store connection was lost)
+			if !started || terms >= 2 {
+				continue
+			}
+			vDrain()
+			close(cl.stream)
+			started = false
+			vCover("term-ended", true)
+			// lapses seen while active have been handled; what lapses from now on is found by the next scan
+			for n := range lapsedAfterStart {
+				vAssert("C28/lapse-while-active-marks-workloads-down", cl.downed[n] > 0)
+				delete(lapsedAfterStart, n)
+				if !cl.alive[n] {
+					lapsedBeforeStart[n] = true
+					cl.downed[n] = 0 // the next term must find it again
+				}
+			}
+			for n := range lapsedBeforeStart {
+				cl.downed[n] = 0
+			}
 		}
 		vDrain()
 	}
